@@ -325,6 +325,9 @@ func TestCheck(t *testing.T) {
 	for k := range faults.H2RareNames {
 		cases = append(cases, faults.Case{Kind: "h2-rare", Proto: "h2", K: k})
 	}
+	for _, sf := range faults.H2ShortFrames() {
+		cases = append(cases, faults.Case{Kind: "h2-short-frame", Proto: "h2", K: sf[0], Val: sf[1]})
+	}
 	for _, proto := range []string{"h1", "h2"} {
 		for _, k := range []int{0} { // no fake time may pass while the proxy is blocked writing: the ReverseProxy flush timer goroutine would then wait for a mutex held by the blocked writer, which testing/synctest never sees as durable (the clock stops)
 			for v := 0; v < 3; v++ {
